@@ -1373,8 +1373,9 @@ def c03_obligations(seed, tier='quick'):
 
 # ------------------------------------------------------------------ C01: compute_pl / compute_portfolio wiring
 
-def compute_pl_ob(which, model_kind, H, stepwise, Tc=None, clause_=False, history=False):
-    tag = '%s,%s,H=%d,%s%s%s' % (which, model_kind, H, 'stepwise' if stepwise else 'vectorised', ',T=%d' % Tc if Tc else ',all T', ',after an earlier evaluation and an outside re-simulation' if history else '')
+def compute_pl_ob(which, model_kind, H, stepwise, Tc=None, clause_=False, history=False, as_tuple=False):
+    tag = '%s,%s,H=%d,%s%s%s%s' % (which, model_kind, H, 'stepwise' if stepwise else 'vectorised', ',T=%d' % Tc if Tc else ',all T', ',after an earlier evaluation and an outside re-simulation' if history else '',
+                                   ',hedges given as a tuple' if as_tuple else '')
 
     def check():
         t0 = time.time()
@@ -1395,7 +1396,7 @@ def compute_pl_ob(which, model_kind, H, stepwise, Tc=None, clause_=False, histor
                 feats = ['log_moneyness', 'time_to_maturity', 'volatility'] + (['prev_hedge'] if stepwise else [])
                 hedger, _ = mk_hedger('user' if model_kind == 'contract' else model_kind, d, H, feats)
                 hl = mk_hedge_list(d, H)
-                kw = {'hedge': hl} if H >= 2 else {}
+                kw = {'hedge': (tuple(hl) if as_tuple else hl)} if (H >= 2 or as_tuple) else {}
                 if model_kind == 'contract':
                     # the caller is checked against the CALLEE'S CONTRACT, not its body: compute_hedge returns some (N, H, T)
                     # tensor (proved for both branches and every T by the HS/compute_hedge obligations) - its values are arbitrary
@@ -1437,6 +1438,11 @@ def compute_pl_ob(which, model_kind, H, stepwise, Tc=None, clause_=False, histor
         nvc = 0
         for p in paths:
             if p.outcome() != 'returns':
+                # an exception raised by pfhedge's own code (not by the torch shim) where the contract says the call returns
+                if p.outcome().startswith('raises:') and '/pfhedge/' in (p.traceback or '')[-900:] and 'torchlib' not in (p.traceback or '')[-400:]:
+                    rp = _replay_pl()
+                    if rp.get('confirmed'):
+                        return Verdict('refuted', 'path-exploration', time.time() - t0, '%s raises %s' % (which, str(p.exception)[:200]), witness={'exception': str(p.exception)[:200]}, replay=rp)
                 return Verdict('unknown', 'engine', time.time() - t0, 'path %s %s %s' % (p.outcome(), p.exception, p.traceback[-600:]))
             res, unit, spots, costs, payoff = p.result
             facts = p.facts(hyps) + rng
@@ -1495,6 +1501,7 @@ for (prev, H, c1, c2) in [(p_, h_, a_, b_) for p_ in (False, True) for h_ in (1,
         for rnd in (0, 1):
             if rnd == 1:
                 und.simulate(n_paths=6, time_horizon=0.05)        # the shared stock re-simulated from outside, after everything was evaluated once
+                hl = tuple(hl)                                     # ... and the hedges handed over as a tuple this time
             unit = hedger.compute_hedge(d, hedge=hl).detach()
             for which in ("compute_pl", "compute_portfolio"):
                 got = getattr(hedger, which)(d, hedge=hl).detach()
@@ -1527,6 +1534,8 @@ def c01_obligations(seed, tier='quick'):
             obs.append(compute_pl_ob(which, 'contract', H, False))
     obs.append(compute_pl_ob('compute_pl', 'user', 1, False, clause_=True))
     obs.append(compute_pl_ob('compute_pl', 'user', 3, False, history=True))
+    obs.append(compute_pl_ob('compute_pl', 'user', 3, False, as_tuple=True))          # the instruments given are the ones used, whatever sequence type carries them
+    obs.append(compute_pl_ob('compute_portfolio', 'user', 1, False, as_tuple=True))
     obs.append(compute_pl_ob('compute_portfolio', 'contract', 3, False, history=True))
     obs.append(compute_pl_ob('compute_pl', 'linear', 2, False))
     return obs
